@@ -6,5 +6,5 @@ cd /repo || exit 2
 if [ -n "$(git status --porcelain --untracked-files=no)" ]; then echo "/repo not clean" >&2; exit 2; fi
 git apply "$diff" || { echo "cannot apply $diff" >&2; exit 2; }
 trap 'git -C /repo checkout -- . >/dev/null 2>&1' EXIT
-cd /verif && ./check "$id" "$tier" 2>&1 | grep -E "^(VIOLATION|KNOWN|C[0-9]+ |BUILD|INFRA)" | head -${SEED_LINES:-6}
+cd /verif && VERIF_EVIDENCE_DIR=$(mktemp -d /tmp/seedev.XXXX) ./check "$id" "$tier" 2>&1 | grep -E "^(VIOLATION|KNOWN|C[0-9]+ |BUILD|INFRA)" | head -${SEED_LINES:-6}
 echo "exit=${PIPESTATUS[0]}"
